@@ -5,6 +5,9 @@ From Verif Require Import Lib.Str Bind.Literal Bind.Model Bind.Proofs.
 From Verif Require gen.Bind_math_gen gen.Bind_00_gen gen.Bind_01_gen gen.Bind_02_gen gen.Bind_03_gen gen.Bind_04_gen gen.Bind_05_gen gen.Bind_06_gen gen.Bind_07_gen gen.Bind_08_gen gen.Bind_09_gen gen.Bind_10_gen gen.Bind_11_gen gen.Bind_12_gen gen.Bind_13_gen gen.Bind_14_gen gen.Bind_15_gen.
 From Verif Require Bind.ShardMath Bind.Shard00 Bind.Shard01 Bind.Shard02 Bind.Shard03 Bind.Shard04 Bind.Shard05 Bind.Shard06 Bind.Shard07 Bind.Shard08 Bind.Shard09 Bind.Shard10 Bind.Shard11 Bind.Shard12 Bind.Shard13 Bind.Shard14 Bind.Shard15.
 
+From Verif Require gen.BindXDrift_gen gen.BindX_00_gen gen.BindX_01_gen gen.BindX_02_gen gen.BindX_03_gen gen.BindX_04_gen gen.BindX_05_gen gen.BindX_06_gen gen.BindX_07_gen gen.BindX_08_gen gen.BindX_09_gen gen.BindX_10_gen gen.BindX_11_gen gen.BindX_12_gen gen.BindX_13_gen gen.BindX_14_gen gen.BindX_15_gen.
+From Verif Require Bind.ShardX00 Bind.ShardX01 Bind.ShardX02 Bind.ShardX03 Bind.ShardX04 Bind.ShardX05 Bind.ShardX06 Bind.ShardX07 Bind.ShardX08 Bind.ShardX09 Bind.ShardX10 Bind.ShardX11 Bind.ShardX12 Bind.ShardX13 Bind.ShardX14 Bind.ShardX15.
+
 Definition all_groups : list group :=
   Bind_math_gen.groups
   ++ Bind_00_gen.groups
@@ -114,4 +117,145 @@ Lemma statement_refuted :
 Proof.
   intros S. destruct tables_refuted as (g & f & r & Hg & Hf & Hr & _ & _ & Hbad).
   destruct (S g Hg) as [Hrows _]. rewrite (Hrows f r Hf Hr) in Hbad. discriminate.
+Qed.
+
+(* ------------------------------------------------------------------ *)
+(** * The witness of the second finding: an untyped rune constant of stdlib/go1_22_unicode_utf8.go
+      (found by computation), bound as an untyped integer literal *)
+
+Definition rune_group : group :=
+  match find (fun g => seqb (g_name g) (s "go1_22_unicode_utf8.go")) all_groups with
+  | Some g => g | None => G [] 0 false [] [] end.
+Definition rune_file : file := hd (F [] [] [] [] []) (g_files rune_group).
+Definition first_rune : option row :=
+  find (fun r => row_rune_region rune_group r && negb (row_ok const_g rune_group rune_file r)) (f_rows rune_file).
+
+Lemma rune_group_in : In rune_group all_groups.
+Proof.
+  unfold rune_group. destruct (find _ all_groups) as [g|] eqn:E;
+    [apply find_some in E; tauto | vm_compute in E; discriminate].
+Qed.
+
+Lemma rune_file_in : In rune_file (g_files rune_group).
+Proof. vm_compute. left. reflexivity. Qed.
+
+Lemma rune_refuted : exists g f r z, In g all_groups /\ In f (g_files g) /\ In r (f_rows f)
+  /\ row_kind g r = Some (KURune z) /\ row_ok const_y g f r = true /\ row_region g r = true
+  /\ row_ok const_g g f r = false.
+Proof.
+  destruct first_rune as [r|] eqn:E; [|vm_compute in E; discriminate].
+  apply find_some in E. destruct E as [Hin Hb]. apply andb_true_iff in Hb. destruct Hb as [Hreg Hbad].
+  apply negb_true_iff in Hbad.
+  unfold row_rune_region in Hreg. destruct (row_kind rune_group r) as [k|] eqn:K; [|discriminate].
+  destruct k; try discriminate.
+  exists rune_group, rune_file, r, z. repeat split; try assumption.
+  - apply rune_group_in.
+  - apply rune_file_in.
+  - exact (all_rows_generated _ _ _ rune_group_in rune_file_in Hin).
+  - unfold row_region. rewrite K. reflexivity.
+Qed.
+
+(* ------------------------------------------------------------------ *)
+(** * The cross-platform tables of the quick set: all groups of coq/gen/BindX_*_gen.v
+
+    The binding files of the other platforms (stdlib/syscall/go1_N_syscall_<os>_<arch>.go and their
+    stdlib/unrestricted counterparts, N = the release the installed toolchain compiles), each with
+    the go/types truth of package syscall for its own GOOS/GOARCH. *)
+
+Definition xplat_groups : list group :=
+  BindX_00_gen.groups
+  ++ BindX_01_gen.groups
+  ++ BindX_02_gen.groups
+  ++ BindX_03_gen.groups
+  ++ BindX_04_gen.groups
+  ++ BindX_05_gen.groups
+  ++ BindX_06_gen.groups
+  ++ BindX_07_gen.groups
+  ++ BindX_08_gen.groups
+  ++ BindX_09_gen.groups
+  ++ BindX_10_gen.groups
+  ++ BindX_11_gen.groups
+  ++ BindX_12_gen.groups
+  ++ BindX_13_gen.groups
+  ++ BindX_14_gen.groups
+  ++ BindX_15_gen.groups.
+
+Definition xplat_drift : list N := BindXDrift_gen.drift.
+
+Lemma xplat_groups_ok : forall g, In g xplat_groups -> check_xgroup xplat_drift g = true.
+Proof.
+  unfold xplat_groups, xplat_drift. intros g H.
+  repeat (apply in_app_or in H; destruct H as [H|H]).
+  - exact (check_xgroups_In _ _ ShardX00.ok g H).
+  - exact (check_xgroups_In _ _ ShardX01.ok g H).
+  - exact (check_xgroups_In _ _ ShardX02.ok g H).
+  - exact (check_xgroups_In _ _ ShardX03.ok g H).
+  - exact (check_xgroups_In _ _ ShardX04.ok g H).
+  - exact (check_xgroups_In _ _ ShardX05.ok g H).
+  - exact (check_xgroups_In _ _ ShardX06.ok g H).
+  - exact (check_xgroups_In _ _ ShardX07.ok g H).
+  - exact (check_xgroups_In _ _ ShardX08.ok g H).
+  - exact (check_xgroups_In _ _ ShardX09.ok g H).
+  - exact (check_xgroups_In _ _ ShardX10.ok g H).
+  - exact (check_xgroups_In _ _ ShardX11.ok g H).
+  - exact (check_xgroups_In _ _ ShardX12.ok g H).
+  - exact (check_xgroups_In _ _ ShardX13.ok g H).
+  - exact (check_xgroups_In _ _ ShardX14.ok g H).
+  - exact (check_xgroups_In _ _ ShardX15.ok g H).
+Qed.
+
+Lemma xplat_rows_generated : forall g f r, In g xplat_groups -> In f (g_files g) -> In r (f_rows f) ->
+  row_ok const_y g f r = true.
+Proof. intros g f r Hg. now apply (check_xgroup_spec _ g (xplat_groups_ok g Hg)). Qed.
+
+Lemma xplat_rows_exact_outside : forall g f r, In g xplat_groups -> In f (g_files g) -> In r (f_rows f) ->
+  row_region g r = false -> row_ok const_g g f r = true.
+Proof. intros g f r Hg. now apply (check_xgroup_exact _ g (xplat_groups_ok g Hg)). Qed.
+
+Lemma xplat_complete_upto : forall g, In g xplat_groups -> complete_upto xplat_drift g = true.
+Proof. intros g Hg. now apply (check_xgroup_spec _ g (xplat_groups_ok g Hg)). Qed.
+
+Lemma xplat_forward : forall g, In g xplat_groups -> forwards g = true.
+Proof. intros g Hg. now apply (check_xgroup_spec _ g (xplat_groups_ok g Hg)). Qed.
+
+(** non-vacuity: the cross-platform set is not empty, holds integer constant rows, and its truth
+    differs from platform to platform: the first group that binds O_LARGEFILE to a non-zero value
+    (found by computation; on the host, linux/amd64, the constant is 0) *)
+Definition xplat_witness : option (group * file * row) :=
+  let cands := flat_map (fun g => flat_map (fun f => flat_map (fun r =>
+     if seqb (r_name r) (s "O_LARGEFILE")
+     then match row_kind g r with Some (KUInt z) => if z =? 0 then [] else [(g, f, r)] | _ => [] end
+     else []) (f_rows f)) (g_files g)) xplat_groups in
+  match cands with x :: _ => Some x | [] => None end.
+
+Lemma xplat_inhabited :
+  exists g f r z, In g xplat_groups /\ In f (g_files g) /\ In r (f_rows f)
+    /\ r_name r = s "O_LARGEFILE" /\ row_kind g r = Some (KUInt z) /\ z <> 0
+    /\ row_region g r = false /\ row_ok const_g g f r = true.
+Proof.
+  destruct xplat_witness as [[[g f] r]|] eqn:E; [|vm_compute in E; discriminate].
+  unfold xplat_witness in E.
+  match type of E with match ?c with _ => _ end = _ => destruct c as [|x l] eqn:C; [discriminate|] end.
+  injection E as ->.
+  assert (Hin : In (g, f, r) ((g, f, r) :: l)) by now left. rewrite <- C in Hin. clear C.
+  apply in_flat_map in Hin. destruct Hin as (g' & Hg & Hin).
+  apply in_flat_map in Hin. destruct Hin as (f' & Hf & Hin).
+  apply in_flat_map in Hin. destruct Hin as (r' & Hr & Hin).
+  destruct (seqb (r_name r') (s "O_LARGEFILE")) eqn:N; [|destruct Hin].
+  destruct (row_kind g' r') as [k|] eqn:K; [|destruct Hin].
+  destruct k; try destruct Hin.
+  destruct (z =? 0) eqn:Z; [destruct Hin|]. destruct Hin as [Hin|[]]. injection Hin as -> -> ->.
+  apply seqb_eq in N. apply Z.eqb_neq in Z.
+  assert (Reg : row_region g r = false) by (unfold row_region; rewrite K; reflexivity).
+  exists g, f, r, z. repeat split; try assumption.
+  now apply xplat_rows_exact_outside.
+Qed.
+
+(** the property at full strength over both sets is refuted by the same witness *)
+Lemma statement_all_refuted :
+  ~ (forall g, In g (all_groups ++ xplat_groups) ->
+       (forall f r, In f (g_files g) -> In r (f_rows f) -> row_ok const_g g f r = true)
+       /\ complete g = true /\ forwards g = true).
+Proof.
+  intros S. apply statement_refuted. intros g Hg. apply S. apply in_or_app. now left.
 Qed.
